@@ -34,8 +34,9 @@ samples are not counted as roots; every input is checked for these preconditions
      simplified; quick: all shapes with 3..4 leaves, thorough: 3..5 leaves          (exhaustive family)
   C  msprime simulations (3..8 samples, several to dozens of trees, integer breakpoints) with, at random,
      0..2 internal nodes collapsed into polytomies and 0..3 (sample, interval) deletions producing missing
-     samples -- including intervals touching the left end, the right end and whole-genome missing samples.
-     quick: 150 simulations, thorough: 2000; all choices from numpy default_rng(seed).
+     samples -- including intervals touching the left end, the right end and whole-genome missing samples;
+     40 % of them with all node ids randomly permuted (samples not the lowest ids).
+     quick: 150 simulations, thorough: 1200; all choices from numpy default_rng(seed).
   Mixture clauses are evaluated on all of A, C and on B.
 
 Tolerances: spans are sums of at most a few hundred interval lengths with integer or half-integer
@@ -158,6 +159,14 @@ def collapse_node(ts, u):
     return tables.tree_sequence()
 
 
+def permute_nodes(ts, rng):
+    """The same tree sequence with ALL node ids permuted (samples no longer the lowest ids)."""
+    tables = ts.dump_tables()
+    tables.subset(rng.permutation(ts.num_nodes).astype(np.int32), record_provenance=False)
+    tables.sort()
+    return tables.tree_sequence()
+
+
 def precondition(ts):
     """Samples at 0, simplified (every non-sample node in some tree), no unary nodes, one root per tree
     (isolated samples not counted), at least 2 attached samples in every tree."""
@@ -190,7 +199,7 @@ def gen_inputs(tier, rng):
             if n >= 3:
                 for j in range(n):
                     yield f"B:n{n}#{idx}-leaf{j}", drop_sample_interval(ts, j, 5.0, 10.0)
-    nsim = 2000 if thorough else 150
+    nsim = 1200 if thorough else 150
     for i in range(nsim):
         n = int(rng.integers(3, 9))
         L = int(rng.choice([20, 50, 200]))
@@ -223,6 +232,8 @@ def gen_inputs(tier, rng):
             if precondition(new):
                 ts = new
                 tag += f"+miss{s}[{a:g},{b:g})"
+        if rng.random() < 0.4:
+            ts, tag = permute_nodes(ts, rng), tag + "+perm"
         yield tag, ts
 
 
@@ -325,7 +336,7 @@ def run(req, rep):
     rep.space = ("A: all leaf-labelled tree shapes (polytomies incl.) as single trees; B: each shape x each leaf "
                  "missing on the right half; C: msprime simulations with random polytomy collapses and missing-"
                  "sample intervals; every non-sample node of every input")
-    rep.bound = (f"A,B: <= {5 if thorough else 4} leaves (exhaustive); C: {2000 if thorough else 150} simulations, "
+    rep.bound = (f"A,B: <= {5 if thorough else 4} leaves (exhaustive); C: {1200 if thorough else 150} simulations, "
                  "3..8 samples, L in {20,50,200}")
     rep.exhaustive = False
     stats = {"inputs": 0, "discarded": 0, "multi": 0, "missing": 0, "polytomy_inputs": 0}
